@@ -6,7 +6,8 @@ M3: PoseidonGl.tla (the reference round schedule: shape, constant indexing, S-bo
 M1: states (zero, all p-1, single-hot edge values, random) and hash inputs of every length 0..40 (random, edge, non-canonical
     value + k*p) are run through the real chip in the three range-check modes; the oracle is the emitted schedule applied
     with naive layer functions and the constant snapshot /verif/data/poseidon_gl.json (validated on published vectors).
-"The permutation is a function" is C05's Unique invariant at the S-box / MDS reduction sites (checked by C05).
+"The permutation is a function": GlGadgets' Unique invariants (C05) for the S-box / MDS reduction sites; in this check the model's
+    adversarial alternatives are injected at sampled hint sites inside one permutation and must fail the local constraints.
 """
 from concurrent.futures import ThreadPoolExecutor
 
@@ -21,6 +22,8 @@ def run(ctx):
                         "public-input-hash vector quoted in the repository's tests, and by C11's replay of real proof transcripts",
                         "plonky2's source is not in the sandbox: 'plonky2's Poseidon' is the reference schedule of PoseidonGl.tla"]
     files = oracles.emit(ctx, bn=False)
+    ctx.tlc("GlGadgets", "GlGadgets_c05.cfg")
+    ctx.tlc("GlGadgets", "GlGadgets_c05_wide.cfg", expect_violation=True)
     thorough = ctx.tier == "thorough"
     jobs = []
     for mode in ("native", "plain", "commit"):
@@ -30,6 +33,9 @@ def run(ctx):
         reps = (3 if thorough else 1) if mode != "commit" else 1
         for i in range(reps):
             jobs.append({"part": "glhash", "mode": mode, "maxlen": 40 if mode != "commit" else 12, "shard": 10 + i})
+
+    for i in range(3 if thorough else 1):
+        jobs.append({"part": "glunique", "mode": "native", "nrandom": 200 if thorough else 0, "shard": 50 + i})
 
     def one(j):
         rq = dict(files)
